@@ -23,7 +23,7 @@ def run_case(name, lines, harness=None, leaks=False):
     fd, path = tempfile.mkstemp(suffix=".scn", dir=SCRATCH)
     with os.fdopen(fd, "w") as f:
         f.write("\n".join(lines) + "\n")
-    env = dict(os.environ, ASAN_OPTIONS="detect_leaks=%d:abort_on_error=0" % (1 if leaks else 0), UBSAN_OPTIONS="print_stacktrace=0")
+    env = dict(os.environ, ASAN_OPTIONS="detect_stack_use_after_return=1:detect_leaks=%d:abort_on_error=0" % (1 if leaks else 0), UBSAN_OPTIONS="print_stacktrace=0")
     try:
         a = subprocess.run([harness or HARNESS, path], stdout=subprocess.PIPE, stderr=subprocess.PIPE, text=True, timeout=50, env=env)
         out, err, rc = a.stdout, a.stderr, a.returncode
